@@ -5,15 +5,16 @@ Proof of the crash/fault safety of `sealTrace` (used by Props/C08.lean).
 namespace SV.SealOps
 open SV.FileSet
 
-/-- the state sealing starts from: complete active files, nothing of a sealed fraction published, no deletion in
-progress; leftovers of an earlier interrupted seal (`._sdocs`, `._index`, and - when documents are sorted - a
-`.sdocs` without `.index`) may be present with any contents -/
+/-- the state sealing starts from: complete active files, no deletion in progress; leftovers of an earlier
+interrupted seal may be present with any contents: `._sdocs`, `._index`, and - when documents are re-sorted - a
+`.sdocs` without `.index`, or - when they are not - an `.index` (the fraction was sealed, the crash came before
+`.meta` was removed, and the restart replayed it as active again) -/
 def Start (c : Cfg) (fs : FileSet) : Prop :=
-  fs.docs = .full ∧ fs.metaF = .full ∧ fs.index = .absent ∧ fs.docsDel = .absent ∧ fs.sdocsDel = .absent ∧
-    fs.indexDel = .absent ∧ (c.skipSortDocs = true → fs.sdocs = .absent)
+  fs.docs = .full ∧ fs.metaF = .full ∧ (c.skipSortDocs = false → fs.index = .absent) ∧ fs.docsDel = .absent ∧
+    fs.sdocsDel = .absent ∧ fs.indexDel = .absent ∧ (c.skipSortDocs = true → fs.sdocs = .absent)
 
-/-- every document is served after a restart from this state -/
-def Safe (st : St) : Prop := served st.fs = .all
+/-- every document is served after a restart from this state (whatever the loader does with orphans) -/
+def Safe (st : St) : Prop := ∀ o, served o st.fs = .all
 
 /-- an original file (.docs / .meta) may be removed only when the sealed copy is complete and its directory entries
 are durable -/
@@ -37,9 +38,8 @@ def sdocsTorn (st : St) : St := { st with fs := { st.fs with sdocsTmp := .torn }
 
 theorem safe_sdocsTorn (st : St) : Safe (sdocsTorn st) ↔ Safe st := by
   unfold Safe sdocsTorn
-  have := served_tmp st.fs .torn st.fs.indexTmp
-  simp only at this ⊢
-  rw [← this]
+  have e : ∀ o, served o { st.fs with sdocsTmp := .torn } = served o st.fs := fun o => served_tmp o st.fs .torn st.fs.indexTmp
+  simp only [e]
 
 theorem step_write_sdocsTmp (st : St) (h : st.fs.sdocsTmp = .empty ∨ st.fs.sdocsTmp = .torn) :
     step (.write .sdocsTmp) st = sdocsTorn st := by
@@ -107,14 +107,16 @@ theorem crash_safe (c : Cfg) (f : Facts) (p : Plan) (oi os : List Bool) (fs0 : F
   obtain ⟨docs, docsDel, sdocs, sdocsTmp, sdocsDel, index, indexTmp, indexDel, metaF⟩ := fs0
   obtain ⟨h1, h2, h3, h4, h5, h6, h7⟩ := h0
   simp only at h1 h2 h3 h4 h5 h6 h7
-  subst h1 h2 h3 h4 h5 h6
+  subst h1 h2 h4 h5 h6
   have hl := writeIndex_lost f p hf { oracle := oi }
   simp only at hl
   obtain ⟨skip, keep⟩ := c
   unfold sealTrace
   generalize hr : writeIndex f p { oracle := oi } = r at hl
   cases skip
-  · obtain ⟨k, hk, -⟩ := sdocsWrites_spec p.sdocs os
+  · have h3' := h3 rfl
+    subst h3'
+    obtain ⟨k, hk, -⟩ := sdocsWrites_spec p.sdocs os
     simp only [sortedDocsOps, Bool.false_eq_true, if_false, hk]
     cases hs : (sdocsWrites p.sdocs os).1
     · -- a write of the sorted docs failed: Seal returns the error
@@ -132,7 +134,7 @@ theorem crash_safe (c : Cfg) (f : Facts) (p : Plan) (oi os : List Bool) (fs0 : F
           classify, classifyInfo, makeInfo, Info.known, Content.has]
   · have h7' := h7 rfl
     subst h7'
-    cases hr1 : r.1 <;> by_cases hc : r.2.calls = 0 <;> cases keep <;>
+    cases hr1 : r.1 <;> by_cases hc : r.2.calls = 0 <;> cases keep <;> cases index <;>
       simp [Along, indexOps, releaseOps, hl, hc, hr1, step, FileSet.set, FileSet.get, Safe, RemoveOk, served,
         classify, classifyInfo, makeInfo, Info.known, Content.has]
 
